@@ -34,6 +34,7 @@ func init() {
 	register(chanendScn{})
 	register(windowScn{})
 	register(rpcScn{})
+	register(rpcevilScn{})
 	register(cutScn{})
 	register(faultseqScn{})
 	register(hostileScn{})
